@@ -160,8 +160,18 @@ Step(tr, i) ==
         after(k) == StOf(s.mids[k], NoUid, pols)
         seen(k) == Range(s.issued) \cup UNION {DOMAIN before(j).objs : j \in 1..k}
         ghost(k) == [issued |-> seen(k) , dead |-> seen(k) \ DOMAIN before(k).objs]
+        \* DiscoverVersions: only versions the server accepts, newest first, all of them for an empty request
+        discover(k) == IF req.items[k].op = "DiscoverVersions" /\ res.items[k].status = "Success"
+                       THEN LET vs == res.items[k].versions  asked == req.items[k].p.versions IN
+                            IF /\ Range(vs) \subseteq SupportedVersions
+                               /\ \A x, y \in DOMAIN vs : x < y => vs[x] > vs[y]
+                               /\ (Len(asked) = 0 => Range(vs) = SupportedVersions)
+                               /\ (Len(asked) > 0 => Range(vs) = Range(asked) \cap SupportedVersions)
+                            THEN {} ELSE {"C16_discover"}
+                       ELSE {}
         itemFails == IF res.kind = "resp" /\ Len(s.mids) = n
                      THEN [k \in 1..n |-> FailedClauses(before(k), req, req.items[k], res.items[k], after(k), ghost(k))
+                             \cup discover(k)
                              \cup (IF Addresses(req.items[k]) /\ req.items[k].p.uid = NoUid
                                       /\ PhBefore(req, res, k) = NoUid
                                       /\ res.items[k].status = "Success" THEN {"C11_placeholder"} ELSE {})]
